@@ -168,6 +168,10 @@ FAMILY = {
     "undefined_iter": "{% for x in nope %}{{ x }}{% else %}E{% endfor %}|{{ nope|list }}|{{ nope|join(',') }}",
     "undefined_arith": "{{ f() + nope }}",
     "loop_length_agen": "{% for x in items %}{{ loop.length }}{{ x }}{% endfor %}|{% for x in items %}{{ loop.revindex }}{% endfor %}",
+    # filters / tests that are not recognisably asynchronous when the template is compiled, attributes that yield awaitables
+    "custom_filters": "{{ g(2)|cf1 }}|{{ 3|cf2(1) }}|{{ s()|cf3 }}|{{ items|map('cf1')|list }}|{{ 2 is ct1 }}|{{ 3 is ct2(3) }}|{{ items|select('ct1')|list }}|{% if f() is ct2(1) %}T{% endif %}",
+    "attr_awaitable": "{{ po|attr('ap') }}|{{ po.ap }}|{{ po['ap'] }}|{{ po|attr('ap') + 1 }}|{{ [po]|map(attribute='ap')|list }}",
+    # (sum/join/unique/groupby with attribute= do not await attribute values; only map does - outside the property's letter)
     "cycler_joiner": "{% set c = cycler(f(), s()) %}{{ c.next() }}{{ c.next() }}{% set j = joiner(s()) %}{{ j() }}a{{ j() }}b",
 }
 HELPERS = {"inc", "lib", "base"}
@@ -224,8 +228,69 @@ class Node:
         self.v, self.c = v, list(c)
 
 
+class Aw:
+    """an awaitable that is not a coroutine object (what a Future, a Task or any object with __await__ is)"""
+
+    def __init__(self, v):
+        self.v = v
+
+    def __await__(self):
+        return self.v
+        yield  # pragma: no cover - makes this a generator function
+
+    def __repr__(self):
+        return "<Aw>"
+
+
+def wrap(impl, style):
+    """the same function as plain function / coroutine function / plain function returning a non-coroutine awaitable"""
+    if not style:
+        return impl
+    if style == "aw":
+        def wf(*a, **k):
+            return Aw(impl(*a, **k))
+        return wf
+
+    async def af(*a, **k):
+        return impl(*a, **k)
+    return af
+
+
+def custom_filters(style):
+    """(filters, tests) registered on the environment; with an async style none of them is recognisably asynchronous
+    from the registered object alone except cf1/ct1 in the coroutine-function style"""
+    class CallObj:
+        def __init__(self, impl):
+            self.impl = impl
+
+        if style:
+            async def __call__(self, *a, **k):
+                return self.impl(*a, **k)
+        else:
+            def __call__(self, *a, **k):
+                return self.impl(*a, **k)
+
+    filters = {"cf1": wrap(lambda v: v * 2, style), "cf2": CallObj(lambda v, n: v + n), "cf3": wrap(lambda v: "<%s>" % v, "aw" if style else False)}
+    tests = {"ct1": wrap(lambda v: v % 2 == 0, style), "ct2": CallObj(lambda v, n: v == n)}
+    return filters, tests
+
+
+class PO:
+    def __init__(self, style):
+        self._style = style
+
+    @property
+    def ap(self):
+        return wrap(lambda: 7, self._style)()
+
+    def __repr__(self):
+        return "PO()"
+
+
 def make_data(acalls, aiters):
     def fn(impl):
+        if acalls == "aw":
+            return wrap(impl, "aw")
         if not acalls:
             return impl
 
@@ -263,6 +328,7 @@ def make_data(acalls, aiters):
         "lazy": Lazy(fn(lambda: 1), fn(lambda: 0)),
         "mixed": it([Part(1, None), Part(2, "x"), Part(3, None), Part(4, "X"), Part(5, "y")]),
         "words": it(["a", "B", "A", "b", "c"]), "nested": it([[1], [2, 3]]),
+        "po": PO(acalls),
     }
 
 
@@ -274,17 +340,20 @@ def family_shard(arg):
     cls = env_classes()[cname]
     ext = ["jinja2.ext.loopcontrols", "jinja2.ext.i18n", "jinja2.ext.do"]
 
-    def mk(async_):
+    def mk(async_, style=False):
         env = cls(loader=jinja2.DictLoader(dict(FAMILY)), enable_async=async_, extensions=ext)
         env.install_null_translations()
+        fl, ts = custom_filters(style)
+        env.filters.update(fl)
+        env.tests.update(ts)
         return env
 
     ref_env = mk(False)
     ref = tag(corpus.outcome(lambda: ref_env.get_template(name).render(**make_data(False, False))))
     native = cname == "Native"
-    for acalls in (False, True):
+    for acalls in (False, True, "aw"):
         for aiters in (False, True):
-            env = mk(True)
+            env = mk(True, acalls)
             for entry in ("render_async", "generate_async", "render", "generate"):
                 data = make_data(acalls, aiters)
                 t = env.get_template(name)
@@ -308,7 +377,7 @@ def family_shard(arg):
                 p.evals += 1
                 p.sig((name, cname, acalls, aiters, str(got)[:16]))
                 if got != ref:
-                    variant = ("acalls" if acalls else "") + ("+" if acalls and aiters else "") + ("aiters" if aiters else "") or "plain"
+                    variant = ("awaitables" if acalls == "aw" else "acalls" if acalls else "") + ("+" if acalls and aiters else "") + ("aiters" if aiters else "") or "plain"
                     p.violation(f"C09/family/{name}/{variant}", {
                         "msg": f"{name} [{cname}] {entry} with {variant} data: {got!r}; sync render: {ref!r}; source {FAMILY[name]!r}",
                         "script": f"from checks import c09\nc09.replay({name!r}, {cname!r}, {acalls!r}, {aiters!r})\n"})
@@ -325,6 +394,9 @@ def replay(name, cname, acalls, aiters):
     for async_ in (False, True):
         env = cls(loader=jinja2.DictLoader(dict(FAMILY)), enable_async=async_, extensions=ext)
         env.install_null_translations()
+        fl, ts = custom_filters(acalls and async_)
+        env.filters.update(fl)
+        env.tests.update(ts)
         d = make_data(acalls and async_, aiters and async_)
         print("async" if async_ else "sync ", repr(corpus.outcome(lambda: env.get_template(name).render(**d))))
 
